@@ -394,6 +394,9 @@ func runC09(t *testing.T, spec RunSpec) *Verdict {
 		return v
 	}
 	res.Probes["zone-"+zone]++
+	if rr.out.Kind != "completed" {
+		res.Faults["limit-refused:"+kindName]++
+	}
 	switch zone {
 	case "within":
 		// never stopped by the limits: outcome and output equal the reference run's
